@@ -19,6 +19,59 @@ def self_field(o):
 OVERLAYS = ('K2b',)
 
 
+def level_parse_rule(chk, P, key):
+    """The lenient level parser walks the input and the expected spelling in lock step (shared with C15: a level's text parses back to it).
+    Both cursors are re-sliced `[1..]` together - once before the loop (the first letter was matched by the caller) and once per matched
+    letter, behind the comparison - and a letter that differs, or a letter beyond the expected spelling, is an error on the spot.  A re-slice
+    missing on one side compares every later letter against the wrong one (or never ends)."""
+    def f():
+        b = P.body("emit::level::parse")
+        def reslices(l):
+            out = []
+            for d in b.defs().get(l, ()):
+                if b.blocks[d[0]]["cleanup"] or d[2] == "partial":
+                    continue
+                o = b._origin_def(d, 0, (), set())
+                if o[0] == "call" and o[1].callee.get("name") == "index" and "RangeFrom" in (o[1].callee.get("full") or ""):
+                    start = None
+                    ao = b.origin(o[1].args[1])
+                    if ao[0] == "agg" and ao[2]:
+                        start = mir.o_const_value(ao[2][0])
+                    src = mir.o_root(b.origin(o[1].args[0]))
+                    out.append((d[0], start, b.in_cycle(d[0])))
+                else:
+                    out.append((d[0], "other:" + mir.o_str(o)[:40], b.in_cycle(d[0])))
+            return out
+        a, e = reslices(1), reslices(2)
+        sig = lambda xs: sorted((st, cyc) for bb, st, cyc in xs)
+        if sig(a) != sig(e) or sig(a) != [(1, False), (1, True)]:
+            return False, ("the input is re-sliced %s and the expected spelling %s (start, inside the loop): the two must advance together, by one, once before "
+                           "the loop and once per matched letter" % (sig(a), sig(e))), [], b.span
+        # the comparison: differing letter -> Err at once; and both in-loop re-slices lie behind its equal edge
+        cmp_ = None
+        for bb, t in b.switches():
+            so, pos = mir.norm_bool(b.switch_origin(bb))
+            if so[0] == "binop" and so[1] in ("Ne", "Eq") and any(x[0] == "call" and x[1].callee.get("name") == "to_ascii_uppercase" for x in (so[2], so[3])):
+                cmp_ = (bb, t, so, pos)
+        if cmp_ is None:
+            raise mir.AnchorMissing("the letter comparison of emit::level::parse")
+        bb, t, so, pos = cmp_
+        for v, tgt in [(v, n) for v, n in t["targets"]] + [("otherwise", t["otherwise"])]:
+            truth = (str(v) != "0") == pos
+            differ = truth if so[1] == "Ne" else not truth
+            if differ:
+                rets = [mir.PathSummary(b, [bb] + p_).ret() for rb in b.return_blocks() for p_ in b.acyclic_paths(tgt, rb, limit=50)]
+                if not rets or not all(r[0] == "agg" and r[1].get("variant") == "Err" for r in rets) or any(b.in_cycle(x) and x != bb for x in b.reachable_from(tgt) if x in [q for q, _ in b.switches()]):
+                    return False, "a letter that differs from the expected spelling does not end the parse with an error", [], b.span
+            else:
+                for xs in (a, e):
+                    inloop = [q for q, st, cyc in xs if cyc]
+                    if not all(b.edge_dominates(bb, tgt, q) or q == tgt for q in inloop):
+                        return False, "a cursor is advanced without the letter having matched", [], b.span
+        return True, "", [b.span]
+    chk.ob(key, "the lenient level parser advances input and expected spelling together and fails on the first differing letter", f)
+
+
 def run(chk):
     P = mir.Program("K1")
     chk.use_program(P)
@@ -376,4 +429,5 @@ def run(chk):
     common.arg_agreement_rule(chk, P, "C17", [("emit", "src/level.rs")], 1)
     common.builder_rules(chk, P, "C17", lambda b: b.key.startswith("emit::level::MinLevelFilter::<"), 1)
     common.level_parser_table(chk, P, "C17")
+    level_parse_rule(chk, P, "C17.R2:level-parse")
     return chk
